@@ -6,7 +6,8 @@ TRUSTED_BASE = [
     "A-PYSEM: E1's encoding of the Python subset, guarded by canaries + native differential runs",
     "A-REAL: floats as reals (comparisons of order parameters; the length bound int((L-2)/u)+2 over exact reals)",
     "A-EXT engine.propagate RESULT contract (contracts/engine.py): fills the empty path with fresh frames, first frame = the given point, all but the last inside [left,right], "
-    "success iff the trajectory left [left,right] strictly before the path was full -- the stop rule itself (EngineBase.add_to_path) is proved against its body; the in-repo loops are C12's subject",
+    "success iff the trajectory left [left,right] strictly before the path was full -- the stop rule itself (EngineBase.add_to_path) is proved against its body, and under C12 this RESULT contract (all but the last frame inside, length <= maxlen, "
+    "success iff last frame outside and path not full) is derived for the frame loops of all five in-repo engines; what stays assumed is that frame 0 of the trajectory is the given point and whatever the external MD programs write",
     "A-EXT engine.modify_velocities / calculate_order only touch the System they are given; dump_phasepoint likewise (proved for EngineBase.dump_phasepoint under C12: only the given phase point's file reference changes)",
     "A-EXT rgen.random() in [0,1), rgen.integers(lo,hi) in [lo,hi)",
     "select_shoot is verified with the four moves replaced by summaries restating clauses proved for them (accept iff ACC, well-formed new paths, nothing older written); run_md with a summary of select_shoot restating ITS proved clauses, "
